@@ -335,6 +335,26 @@ func (g *pg) block(depth int) []lang.Stmt {
 	return out
 }
 
+// tailIfElse: if ( c ) { ...; return v; } else { function name(q) {..} } - or
+// the other way round, or with the definition as the only content of both.
+func (g *pg) tailIfElse(name string) lang.Stmt {
+	def := lang.FuncDef{N: name, Params: []string{"q"}, Body: []lang.Stmt{lang.Return{X: lang.Binary{Op: "+", L: lang.Name{N: "q"}, R: lang.Lit{V: lang.Int(1)}}}}}
+	leaves := []lang.Stmt{g.traceStmt(), lang.Return{X: g.intExpr(1)}}
+	x := lang.If{C: g.cond(1)}
+	switch g.pick("tailshape", 4) {
+	case 0:
+		x.Then, x.Else = leaves, []lang.Stmt{def}
+	case 1:
+		x.Then, x.Else = []lang.Stmt{def}, leaves
+	case 2:
+		x.Then = []lang.Stmt{def}
+	default:
+		x.Then = leaves
+		x.ElseIf = &lang.If{C: g.cond(1), Then: []lang.Stmt{def}}
+	}
+	return x
+}
+
 func (g *pg) retExpr() lang.Expr {
 	switch g.pick("retk", 6) {
 	case 0, 1:
@@ -676,6 +696,8 @@ func (g *pg) funcDef(i int) lang.Stmt {
 	}
 	if !f.void {
 		body = append(body, lang.Return{X: g.intExpr(2)})
+	} else if g.chance("tailifelsefn", 15) {
+		body = append(body, g.tailIfElse("nt"+f.name))
 	}
 	fns := g.fns
 	nloop := g.nloop
@@ -798,6 +820,10 @@ func Program(t *rapid.T, o ProgOpts) *Prog {
 	}
 	if g.chance("finalret", 85) {
 		body = append(body, lang.Return{X: g.retExpr()})
+	} else if g.chance("tailifelse", 50) {
+		// the script ends in an if/else of which one block leaves and the other
+		// holds nothing but a definition (which produces no code of its own)
+		body = append(body, g.tailIfElse("ntail"))
 	}
 
 	// definitions before or after use
